@@ -97,6 +97,7 @@ type world struct {
 	inflight int
 	crashImages int
 	lastOps int
+	replaying bool
 }
 
 var goodKeys = []string{"a", "d1/a", "d1/b", "d1/d2/c", "d1/d2/e", "d3/x", "checkpoint", "tile/0/000", "tile/0/x001/234.p/5", "tile/data/x001/234"}
@@ -266,6 +267,7 @@ var lastTrace []core.Cmd
 func (w *world) main(replay []core.Cmd) {
 	p := w.prof
 	sim := w.sim
+	w.replaying = replay != nil
 	w.fs = simos.New()
 	w.fs.Confine = storeDir
 	w.fs.NoChattr = p.NoChattr
@@ -427,7 +429,9 @@ func (w *world) quiesce() {
 	p := w.prof
 	if w.fs.Ops != w.lastOps {
 		w.lastOps = w.fs.Ops
-		if p.Sweep || w.sim.Rng.Chance(p.CrashPct, 100) {
+		// in a replay every step is checked: the sampled subset would depend on
+		// PRNG draws that a replayed (and minimised) trace does not make
+		if p.Sweep || w.replaying || core.Mix(w.sim.Seed, uint64(w.sim.Step))%100 < uint64(p.CrashPct) {
 			w.crashCheck(false)
 		}
 	}
